@@ -537,7 +537,7 @@ pub fn run(cfg: &Config) -> i32 {
 		},
 		total,
 		started,
-		if cfg.san { 100 } else { 100_000 },
+		if cfg.san { 1_000 } else { 100_000 },
 	)
 	.exit
 }
